@@ -4,7 +4,7 @@ from collections import Counter
 from hypothesis import strategies as st
 
 from vlib import intervals as iv
-from vlib.runner import Violation, sut
+from vlib.runner import Stats, Violation, sut
 
 ID = "C09"
 RULE = (
@@ -141,3 +141,45 @@ def run_case(case):
     if len(iv.merge_closed(uiv)) < len(uiv):
         classes.append("union_merges")
     return {"nontrivial": bool(a and b and (multi or shared)), "classes": classes, "evals": 2}
+
+
+# ---------------------------------------------------------------------------
+# exhaustive small scope: EVERY pair of non-overlapping lists on a tiny grid (no sampling)
+
+EXHAUSTIVE_NOTE = "extra phase 'small_scope': filter_period_intersect on every pair of internally non-overlapping lists of <= N events with integer ms edges in [0, G] (quick G=4,N=3: 87 616 pairs; thorough G=5,N=4: 3 598 609 pairs) and period_union on every pair of arbitrary lists of <= 2 intervals on [0, 4] (58 081 pairs)"
+
+
+def extra_phases(tier, seed, jobs):
+    g, n = (4, 3) if tier == "quick" else (5, 4)
+    return [("small_scope", "phase_small_scope", [{"i": i, "n": jobs, "grid": g, "max_n": n} for i in range(jobs)])]
+
+
+def _evs(layout, with_ids):
+    return [dict({"s": s, "d": e - s, "l": "ab"[k % 2]}, **({"id": k + 1} if with_ids else {})) for k, (s, e) in enumerate(layout)]
+
+
+def phase_small_scope(task):
+    st_ = Stats()
+    lay = iv.all_layouts(task["grid"], task["max_n"])
+    for a in iv.shard(lay, task["i"], task["n"]):
+        ea = _evs(a, True)
+        for b in lay:
+            try:
+                check_intersection(ea, _evs(b, False))
+            except Violation as v:
+                st_.failure = {"kind": "case", "case": {"a": ea, "b": _evs(b, False), "ua": [], "ub": [], "union_on": "ab"}, "message": v.msg}
+                return st_
+            st_.evals += 1
+    single = [(s, e) for s in range(5) for e in range(s, 5)]
+    lists = [[]] + [[x] for x in single] + [[x, y] for x in single for y in single]
+    for a in iv.shard(lists, task["i"], task["n"]):
+        for b in lists:
+            try:
+                check_union(_evs(a, False), _evs(b, False))
+            except Violation as v:
+                st_.failure = {"kind": "case", "case": {"a": [], "b": [], "ua": _evs(a, False), "ub": _evs(b, False), "union_on": "arbitrary"}, "message": v.msg}
+                return st_
+            st_.evals += 1
+    st_.classes["pairs_enumerated"] = st_.evals
+    st_.notes["pairs_enumerated"] = st_.evals
+    return st_
